@@ -68,6 +68,32 @@ def explore(res, rng, n, exhaustive=None):
             res.failures.append({'signature': sig, 'clause': a, 'api': cyc.API[name],
                                  'input': h, 'scale': s, 'impl_output': cyc.impl_line(out)})
     res.samples += [{'history': h, 'scale_2^-s': s} for h, s in cases[len(corpus()):len(corpus()) + 3]]
+    # changed globalConfig.atol: on histories closed at the global minimum whose Rychlik and rainflow tables agree at the default
+    # number of digits, they agree at any other number of digits as well (both are rounded at call time)
+    core.import_impl()
+    from ffpack import lcc
+    k = 0
+    for h, s in cases:
+        if k >= max(30, n // 20):
+            break
+        if s != 0 or len(set(h)) < 3 or not (h[0] == h[-1] == min(h)) or max(abs(v) for v in h) > 4096:
+            continue
+        k += 1
+        data = [v / 100.0 for v in h]
+        base = (lcc.rychlikRainflowCounting(list(data), aggregate=True), lcc.astmRainflowCounting(list(data), aggregate=True))
+        if [round(a, 6) for r in base[0] for a in r] != [round(a, 6) for r in base[1] for a in r]:
+            continue
+        digits = (sum(h) + k) % 3
+        with cyc.with_atol(digits):
+            ry = lcc.rychlikRainflowCounting(list(data), aggregate=True)
+            rf = lcc.astmRainflowCounting(list(data), aggregate=True)
+        res.evaluations += 1
+        res.stat('config_atol_%d' % digits)
+        if [round(a, 9) for r in ry for a in r] != [round(a, 9) for r in rf for a in r]:
+            res.failures.append({'signature': f'C06:rychlik:config-atol:{enc_list(h)}:{digits}',
+                                 'clause': 'Rychlik table differs from the rainflow table after globalConfig.atol = %d' % digits,
+                                 'api': 'rychlikRainflowCounting', 'input': h, 'scale': 'x 0.01', 'atol_digits': digits,
+                                 'impl_output': {'rychlik': ry[:6], 'rainflow': rf[:6]}})
 
 
 def run(tier, seed):
